@@ -94,6 +94,14 @@ Record case := {
   c_ids : list nat;                    (* identity pattern after the last op *)
 }.
 
+(* the hypothesis acc_ok of the frame theorems, checked in every state the correspondence visits: every accessible
+   object of every class is in range, and so is its datatype object *)
+Definition acc_ok_b (s : state) (i : id) : bool :=
+  Nat.ltb i (length (params s)) &&
+  match v_dt (pv (getp (params s) i)) with Some j => Nat.ltb j (length (dts s)) | None => true end.
+Definition wf_b (s : state) : bool :=
+  forallb (fun c => forallb (fun ki => acc_ok_b s (snd ki)) (c_acc c)) (classes s).
+
 Definition op_ok (s' : state) (o : op) (ok : bool) : bool :=
   match o with
   | OInst _ _ => Bool.eqb (i_alive (last (insts s') {| i_alive := false; i_acc := [] |})) ok
@@ -106,7 +114,7 @@ Fixpoint run_check (s : state) (seen : snapshot) (ops : list op) (oks : list boo
   | o :: ops', ok :: oks', d :: ds' =>
       let s' := step s o in
       let seen' := fold_left (fun acc ed => snap_set (fst ed) (snd ed) acc) d seen in
-      if op_ok s' o ok && snap_eqb (model_snapshot s') seen' then run_check s' seen' ops' oks' ds' else None
+      if op_ok s' o ok && wf_b s' && snap_eqb (model_snapshot s') seen' then run_check s' seen' ops' oks' ds' else None
   | _, _, _ => None
   end.
 
